@@ -437,6 +437,9 @@ def rule_mask_names(check, model, rules):
                         g[('has', proto.kind_at(idx))] = pol
                     elif b is not None:
                         g[('has', proto.kind_at(b[1]))] = pol
+                    elif t[0] == 'C' and t[1] == 'any' and mentions(t, el):
+                        # "does a parameter that is left have this name" (D38/D58): a fact about the input, like `in sig.parameters`
+                        g['in_input_parameters'] = pol
                     elif t == model.partial_term():
                         g['partial'] = pol
                     elif t[0] == 'SL' and t[1][0] == 'V' and t[1][1] in [c[0] for c in carried.values()]:
@@ -496,10 +499,12 @@ def rule_mask_names(check, model, rules):
 
             # which rows can this path be in?
             rows = []
+            posonly_to_vk = g.get('in_posonly') is True and hk is not False
             for c_ in ([cons] if cons is not None else [True, False]):
-                if c_:
+                if c_ and not posonly_to_vk:
                     rows.append('dup')
                     continue
+                # (D58) a keyword named like a consumed positional-only parameter cannot reach it: with **kwargs it is absorbed
                 for i_ in ([idx_] if idx_ is not None else [True, False]):
                     if i_:
                         rows.append('pok')
@@ -511,6 +516,10 @@ def rule_mask_names(check, model, rules):
                         for h_ in ([hk] if hk is not None else [True, False]):
                             rows.append('absorb' if h_ else 'notfound')
             rows = sorted(set(rows))
+            if rules.get('posonly') and raises and cons is True and g.get('in_posonly') is None and hk is not False:
+                # (D58) the duplicate is reported without asking whether the consumed parameter can be reached by keyword at all
+                add('posonly', 'row "name already consumed": raises ValueError whatever kind the consumed parameter has -- a keyword named like a '
+                               'consumed positional-only parameter cannot reach it and goes to **kwargs, which is a valid call')
             for row in rows:
                 if row in ('dup', 'notfound'):
                     if not raises:
@@ -636,6 +645,7 @@ def rule_mask_names(check, model, rules):
 
 
 _WIT = {
+    'posonly': "def f(a, /, **kwargs): ...; signatures.signature(functools.partial(f, 1, a=2)) must be (*, a=2, **kwargs), not ValueError",
     'table': "mask(s('a'), 0, 'zz') must raise; mask(s('a, b, *args'), 0, 'a') must be (*, b)",
     'index': "mask(s('b, a, *args, **kwargs'), 0, 'a', 'b') must equal mask(..., 0, 'b', 'a')",
     'kinds': "mask(s('a, b'), 0, 'a') must be (*, b)",
@@ -684,6 +694,15 @@ def _container_role(model, c, carried):
             return _container_role(model, init, carried)
         return None
     if c[0] == 'SET':
+        init = model.interp.obj_init.get(c)
+        if init is not None and not model.is_empty_fresh(c):
+            # set(p.name for p in <PO bucket>): the names of the positional-only parameters of the input (D58)
+            iPO = proto.index_of_kind('PO')
+            for s in subterms(init):
+                if s[0] == 'G' and len(s[3]) == 1:
+                    src = s[3][0][0]
+                    if model.sides.bucket(src) == ('sig', iPO):
+                        return 'in_posonly'
         return 'in_consumed'
     if model.sides.bucket(c) == ('sig', iKWO):
         return 'in_kwo'
